@@ -18,6 +18,21 @@ META = {
 }
 
 
+def owed_rule(ctx, tag, poll=None):
+    """once an id was taken from the cancellation queue and its entry removed, the Cancel is handed to the transport in the same activation"""
+    F, P, R = ctx.F, ctx.P, ctx.run
+    from .wake import dispatch_setup
+    from .shape_common import run_jobs
+    poll_, reach_, acc, cells, cmps = dispatch_setup(F, P)
+    poll = poll or poll_
+    res = run_jobs(F, [{'key': 'owed', 'entry': poll_.id, 'aut': ('custom', OwedCancelAut), 'acc': acc, 'cells': cells}])['owed']
+    R.count('states_explored', res['stats'].get('states', 0))
+    owed_exits = sorted({(e[0], repr(ret)[:40]) for (ret, e, lab) in res['exits'] if e[0] in ('owed', 'taken') and not ('Err' in repr(ret)) and not any(isinstance(v, tuple) and v and v[0] == 'Some' for _, v in e[1])})
+    R.ob(tag, ('dispatch poll', 'a cancellation taken for an in-flight request is written before the dispatch returns'), not owed_exits and not res['viol'],
+         'once an id was taken from the cancellation queue and its entry removed, the Cancel is handed to the transport in the same activation (or the dispatch ends with an error): it cannot be dropped by an early return',
+         sorted({s_ for v in res['viol'].values() for s_ in v}) or [poll.loc(poll.d)], 'exits with an unwritten cancellation: %s; %s' % (owed_exits, list(res['viol'])))
+
+
 def run(ctx):
     F, P, R = ctx.F, ctx.P, ctx.run
     R.explanation = META['text']
@@ -250,15 +265,8 @@ def run(ctx):
         R.ob('C03.cancel', ('dispatch poll', 'cancel is written'), True, 'the Cancel message is handed to the transport', [g.loc(st_)])
 
     # ------------------------------------------------------------------ 7. a consumed cancellation is written (or the connection ends) — E-SHAPE
-    from .wake import dispatch_setup
+    owed_rule(ctx, 'C03.owed', poll)
     from .shape_common import run_jobs
-    poll_, reach_, acc, cells, cmps = dispatch_setup(F, P)
-    res = run_jobs(F, [{'key': 'owed', 'entry': poll_.id, 'aut': ('custom', OwedCancelAut), 'acc': acc, 'cells': cells}])['owed']
-    R.count('states_explored', res['stats'].get('states', 0))
-    owed_exits = sorted({(e[0], repr(ret)[:40]) for (ret, e, lab) in res['exits'] if e[0] in ('owed', 'taken') and not ('Err' in repr(ret)) and not any(isinstance(v, tuple) and v and v[0] == 'Some' for _, v in e[1])})
-    R.ob('C03.owed', ('dispatch poll', 'a cancellation taken for an in-flight request is written before the dispatch returns'), not owed_exits and not res['viol'],
-         'once an id was taken from the cancellation queue and its entry removed, the Cancel is handed to the transport in the same activation (or the dispatch ends with an error): it cannot be dropped by an early return',
-         sorted({s_ for v in res['viol'].values() for s_ in v}) or [poll.loc(poll.d)], 'exits with an unwritten cancellation: %s; %s' % (owed_exits, list(res['viol'])))
     # the cancellation queue is consumed: registered on every idle return (only a pending write-side poll may postpone it), and the
     # write side is closed only after it ended
     from .wake import source_jobs, pending_states, source_ok
